@@ -47,7 +47,35 @@ RunVerdict(c) ==
 
 PairVerdict(c) == IF Range(c.high) \subseteq Range(c.low) THEN "ok" ELSE "fail:higher_threshold_added_detection"
 
-Verdict(c) == IF c.rec = "run" THEN RunVerdict(c) ELSE PairVerdict(c)
+(* record "intervals" (growth, see SeededIntervals.tla): n, minlen, L, starts, ends as returned by    *)
+(* make_seeded_intervals.  The list must consist of blocks, one per interval length: each block     *)
+(* starts at 0, advances by a constant step >= 1, all its intervals but the last have the block's   *)
+(* length, its last interval ends at n and every interval is at least minlen long; block lengths    *)
+(* increase strictly from minlen to at most min(L, n).                                               *)
+IntervalsVerdict(c) ==
+    LET K == Len(c.starts)
+        firsts == {i \in 1..K : c.starts[i] = 0 /\ (i = 1 \/ c.starts[i - 1] # 0 \/ c.ends[i - 1] = c.n)}
+        isFirst(i) == i \in firsts
+        blockStart(i) == Max({j \in firsts : j <= i})
+        blockEnd(i) == IF \E j \in firsts : j > i THEN Min({j \in firsts : j > i}) - 1 ELSE K
+        len(i) == c.ends[i] - c.starts[i]
+        blen(i) == len(blockStart(i))
+        cap == IF c.L < c.n THEN c.L ELSE c.n
+    IN IF K = 0 THEN "fail:no_candidate_interval"
+       ELSE IF c.starts[1] # 0 THEN "fail:first_interval_does_not_start_at_0"
+       ELSE IF \E i \in 1..K : c.starts[i] < 0 \/ c.ends[i] > c.n \/ len(i) < c.minlen \/ len(i) > cap THEN "fail:interval_not_admissible"
+       ELSE IF \E i \in 1..K : c.ends[blockEnd(i)] # c.n THEN "fail:block_does_not_reach_the_end"
+       ELSE IF \E i \in 1..K : i # blockEnd(i) /\ len(i) # blen(i) THEN "fail:inner_interval_of_block_has_other_length"
+       ELSE IF \E i \in 1..K : len(i) > blen(i) THEN "fail:interval_longer_than_its_block"
+       ELSE IF \E i \in 1..(K - 2) : blockStart(i) = blockStart(i + 2) /\ i + 2 # blockEnd(i)     \* a block's last start may be adjusted
+                                       /\ c.starts[i + 1] - c.starts[i] # c.starts[i + 2] - c.starts[i + 1]
+         THEN "fail:steps_within_block_not_constant"
+       ELSE IF \E i \in 1..(K - 1) : blockStart(i) = blockStart(i + 1) /\ i + 1 # blockEnd(i) /\ c.starts[i + 1] <= c.starts[i] THEN "fail:step_not_positive"
+       ELSE IF blen(1) # c.minlen THEN "fail:first_block_is_not_the_minimum_length"
+       ELSE IF \E i, j \in firsts : i < j /\ blen(i) >= blen(j) THEN "fail:block_lengths_not_increasing"
+       ELSE "ok"
+
+Verdict(c) == IF c.rec = "run" THEN RunVerdict(c) ELSE IF c.rec = "intervals" THEN IntervalsVerdict(c) ELSE PairVerdict(c)
 
 Init == tid = 0 /\ verdict = "start"
 Next == /\ tid < Len(Cases)
